@@ -57,6 +57,8 @@ func init() {
 							if rd != "" {
 								pre = append(pre, rd)
 							}
+							// an iterator obtained while the entry is live and ranged after its deadline
+							pre = append(pre, "mkiter "+[]string{"all", "keys", "coldest"}[len(prefixes)%3])
 							pre = append(pre, fmt.Sprintf("adv %d", adv))
 							if cl != "" {
 								pre = append(pre, cl)
@@ -67,7 +69,7 @@ func init() {
 				}
 			}
 			alpha := baseAlphabet([]int{1}, cfg, true)
-			alpha = append(alpha, "refresh 1 val", "bulkrefresh 1,2 full", "save", "sea 1 1000", "sra 1 1000", "set 3", "get 2")
+			alpha = append(alpha, "refresh 1 val", "bulkrefresh 1,2 full", "save", "sea 1 1000", "sra 1 1000", "set 3", "get 2", "useiter")
 			depth := 2
 			p := seqParams{Cfg: cfg, Alphabet: alpha, Prefixes: prefixes, Kinds: kinds}
 			jobs = append(jobs, seqJob(p, depth, 4, 120, "ops-on-expired-unswept"))
